@@ -216,6 +216,9 @@ def decode_bytes(data, tier=None):
     return {"signal": sig, "cuts": cuts}
 
 
+decode_bytes.seeds = [bytes([1]) + bytes([(v + 8) | (0x80 if i % 3 == 0 else 0) for i, v in enumerate((2, -3, 5, -1, 3, -4, 4, -2))]), bytes([2] + [16] * 6)]
+
+
 @subcheck("C01", "chunked_fuzz", fuzz=decode_bytes, quick=0, thorough=400000, crash_guard=True,
           doc="coverage-guided (atheris/libFuzzer, pylife.stress.rainflow instrumented): bytes -> (signal, cuts); same oracle as chunked_random")
 def chunked_fuzz(case, ctx):
